@@ -274,7 +274,7 @@ Theorem first_match_wins e bp builtin repo tools sel t s :
                           (default_profile builtin repo tools) s
   end.
 Proof.
-  intros Hr Ht. unfold settings_for, compiled_for.
+  intros Hr Ht. unfold settings_for, settings_with, compiled_for.
   rewrite override_order by assumption. rewrite pass_first_match.
   destruct (find (hits e bp t s) (ordered_overrides repo tools sel)) as [o|] eqn:E.
   - apply find_some in E as [_ E]. unfold hits in E. apply andb_true_iff in E as [_ E].
@@ -879,7 +879,7 @@ Theorem settings_for_proj e bp builtin repo tools sel t s :
   settings_for e bp builtin repo tools sel t s =
   settings_proj e bp s (proj_file s builtin) (proj_file s repo) (map (proj_file s) tools) sel t.
 Proof.
-  intros Hb Hr Ht. unfold settings_for, compiled_for, settings_proj.
+  intros Hb Hr Ht. unfold settings_for, settings_with, compiled_for, settings_proj.
   rewrite override_order, pass_first_match by assumption.
   rewrite find_hits_proj, map_proj_ordered. f_equal.
   rewrite profile_value_core, pv_core_restrict. rewrite (has_custom_proj s).
@@ -903,6 +903,13 @@ Proof.
   intros Hb Hr Ht Hb' Hr' Ht' E1 E2 E3.
   rewrite !settings_for_proj by assumption. rewrite E1, E2, E3. reflexivity.
 Qed.
+
+Lemma run_case_spec e bp builtin repo tools sel tests :
+  run_case e bp builtin repo tools sel tests =
+  if profile_exists builtin repo tools sel
+  then map (fun t => enc_settings (settings_for e bp builtin repo tools sel t)) tests
+  else [].
+Proof. reflexivity. Qed.
 
 Theorem cli_wins cli resolved s v : cli s = Some v -> effective cli resolved s = Some v.
 Proof. intros H. unfold effective. rewrite H. reflexivity. Qed.
